@@ -60,8 +60,9 @@ ASSUMPTIONS = [
     "git modes; extended flags only use the two defined bits (C git dies on others)",
     "stat fields are compared modulo the on-disk 32-bit widths git itself uses (dev, ino, size, time seconds); "
     "float times to +-1 ns of the exact value of the float",
-    "only *unknown* extensions (4 upper-case letters, non-empty payload) are required to survive a rewrite; TREE/REUC "
-    "may be dropped; an unknown lower-case (mandatory) extension may be refused; split index (`link`) is not generated",
+    "only *unknown* extensions (4 upper-case letters that gitformat-index(5) does not define, non-empty payload) are "
+    "required to survive a rewrite; TREE/REUC/UNTR/EOIE/IEOT may be dropped or kept; an unknown lower-case (mandatory) "
+    "extension may be refused; split index (`link`) is not generated",
     "the format version is not required to be preserved by a read-modify-write (only honoured when given to Index())",
     "SHA-1 repositories only; git 2.39 cannot write index.skipHash, so null-trailer files come from dulwich and the "
     "reference writer only",
@@ -73,7 +74,8 @@ FLAG_EXTENDED = 0x4000
 EMPTY_BLOB = b"e69de29bb2d1d6434b8b29ae775ad8c2e48c5391"
 SHAS = [hashlib.sha1(b"c11-%d" % i).hexdigest().encode("ascii") for i in range(7)] + [EMPTY_BLOB]
 MODES = [0o100644, 0o100755, 0o120000, 0o160000]
-KNOWN_SIGS = (b"TREE", b"REUC", b"UNTR", b"link", b"sdir")
+# every signature gitformat-index(5) defines; "unknown" means none of these
+KNOWN_SIGS = (b"TREE", b"REUC", b"UNTR", b"link", b"sdir", b"FSMN", b"EOIE", b"IEOT")
 
 # a syntactically valid, fully invalidated cache-tree and one resolve-undo record (gitformat-index(5))
 TREE_BLOB = b"\0-1 0\n"
@@ -1269,9 +1271,9 @@ def selftest(ctx):
 def run(ctx):
     selftest(ctx)
     ctx.note("git_version", cgit.version())
-    n_dw = ctx.scale(170, 9000)
-    n_dr = ctx.scale(100, 5000)
-    n_gw = ctx.scale(30, 1200)
+    n_dw = ctx.scale(170, 8000)  # per shard (x16)
+    n_dr = ctx.scale(100, 4000)
+    n_gw = ctx.scale(50, 1500)
     items = []
     for _ in range(16):
         items += [("dw", n_dw)]
